@@ -315,6 +315,22 @@ func (r *Run) Fail(t fataler, c any, v *Violation) {
 	t.Fatalf("VERIF-FAIL %s: %s", v.Kind, v.Msg)
 }
 
+// Journal stores the case about to be executed (VERIF_WORKDIR/journal.json): when the code under test kills the
+// whole process (panic on a goroutine of its own) the driver takes the journal as the replay file.
+func (r *Run) Journal(c any) {
+	dir := os.Getenv("VERIF_WORKDIR")
+	if dir == "" {
+		return
+	}
+	b, err := json.Marshal(c)
+	if err != nil {
+		return
+	}
+	f := failure{Test: r.curTest, Kind: "process-died", Msg: "the test process died while executing this case", Case: b}
+	fb, _ := json.Marshal(f)
+	_ = os.WriteFile(filepath.Join(dir, "journal.json"), fb, 0o644)
+}
+
 // Finish writes the evidence fragment (and the failing case, if any). Deferred by every test.
 func (r *Run) Finish() {
 	if p := recover(); p != nil {
